@@ -59,6 +59,7 @@ func runC16(l *core.Ledger) {
 	l.Rule("C16-Y3", "decision table over 2^10 option valuations: exactly one client template per accepted method; unique call type; documented forbidden combinations rejected; documented 'Yes' combinations accepted; server streams only with correctable")
 	l.Rule("C16-Y4", "for each call type, the options that influence emitted non-comment text are a subset of the options the documentation matrix marks 'Yes' for it")
 	l.Rule("C16-Y5", "template ↔ runtime agreement: written call-data fields exist in that struct; identifiers named through `use` exist and are exported; template functions are funcMap keys")
+	l.Rule("C16-Y10", "every identifier the generated file declares is checked against the input's names: the derived wrapper type names against the message names, and the service and method names against what the static code declares")
 	l.Rule("C16-Y9", "the guard judges what will be generated: it compares the Go names of the messages (GoIdent.GoName - what the generated code declares) with the reserved identifiers, and it validates every method before it can decide that there is nothing to generate (an illegal combination may match no call type at all)")
 	l.Rule("C16-Y8", "every generated file declares what the static code uses: the static code refers to QuorumSpec without declaring it, the qspec template declares it once per element of qspecServices, so qspecServices hands out every service it is given (one unconditional append per service)")
 	l.Rule("C16-Y6", "reservedIdents ⊇ exported package-level identifiers declared by the static code ∪ {QuorumSpec}; gorumsGuard compares every top-level message name with every reserved name")
@@ -77,6 +78,7 @@ func runC16(l *core.Ledger) {
 	c16Y7(l, g)
 	c16Y8(l, g)
 	c16Y9(l, g)
+	c16Y10(l, g)
 	_ = table
 }
 
